@@ -293,15 +293,21 @@ Theorem crash_in_call_covered c nb h s o j bd :
   exists bdj, lrun c bd (e_disk (ss_env s)) (firstn j acts) bdj dj /\
     forall out, bcrash bdj out ->
       exists cc, HL c (hstep_run c h (HCrashIn o j cc)) (bscrub c out) /\
-                 hs_mode (hstep_run c h (HCrashIn o j cc)) = Down (crash_disk cc dj).
+                 hs_mode (hstep_run c h (HCrashIn o j cc)) = Down (crash_disk cc dj) /\
+                 GI c (nb + 2) (hstep_run c h (HCrashIn o j cc)).
 Proof.
   intros Hc Ho Hnb HG Emode HLk s' acts dj.
+  assert (HGI : forall cc, GI c (nb + 2) (hstep_run c h (HCrashIn o j cc))).
+  { intros cc. apply (GI_step c nb h (HCrashIn o j cc) (fun _ => True) Hc);
+      [intros o' _; apply call_ok_all|exact Hnb|exact Ho|exact I|exact HG]. }
   destruct (call_link c nb h s o bd Hc Ho Hnb HG Emode HLk) as (r & s1 & Hst & (bd' & E & HW) & Hnd).
   destruct (crash_point c bd _ _ bd' _ j (new_acts_erun _ _ _ _ _ E) Hnd) as (bdj & Lj & _ & Hs & Hndc).
   exists bdj. unfold dj, acts, s'. rewrite Hst. cbn [snd]. split; [exact Lj|]. intros out Hout.
-  destruct (Hs out Hout) as (cc & Hd). exists cc.
-  unfold hstep_run. rewrite Emode, Hst. destruct (step_spec (hs_acked h) o) as [r' sp'].
-  destruct (Nat.leb _ j); unfold HL; cbn [hs_mode]; auto.
+  destruct (Hs out Hout) as (cc & Hd). exists cc. split; [|split; [|apply HGI]].
+  - unfold hstep_run. rewrite Emode, Hst. destruct (step_spec (hs_acked h) o) as [r' sp'].
+    destruct (Nat.leb _ j); unfold HL; cbn [hs_mode]; auto.
+  - unfold hstep_run. rewrite Emode, Hst. destruct (step_spec (hs_acked h) o) as [r' sp'].
+    destruct (Nat.leb _ j); reflexivity.
 Qed.
 
 Theorem crash_in_open_covered c nb h d j bd :
@@ -311,9 +317,13 @@ Theorem crash_in_open_covered c nb h d j bd :
   exists bdj, lrun c bd d (firstn j acts) bdj dj /\
     forall out, bcrash bdj out ->
       exists cc, HL c (hstep_run c h (HCrashInOpen j cc)) (bscrub c out) /\
-                 hs_mode (hstep_run c h (HCrashInOpen j cc)) = Down (crash_disk cc dj).
+                 hs_mode (hstep_run c h (HCrashInOpen j cc)) = Down (crash_disk cc dj) /\
+                 GI c (nb + 2) (hstep_run c h (HCrashInOpen j cc)).
 Proof.
   intros Hc Hnb HG Emode HLk acts dj.
+  assert (HGI : forall cc, GI c (nb + 2) (hstep_run c h (HCrashInOpen j cc))).
+  { intros cc. apply (GI_step c nb h (HCrashInOpen j cc) (fun _ => True) Hc);
+      [intros o' _; apply call_ok_all|exact Hnb|exact I|exact I|exact HG]. }
   destruct (open_link c nb h d bd Hc Hnb HG Emode HLk) as (w & e & Ho & (bd' & E & HW)).
   pose proof HLk as HLk'. unfold HL in HLk'. rewrite Emode in HLk'. destruct HLk' as (_ & Hnd).
   pose proof (new_acts_erun _ _ _ _ _ E) as L. unfold new_acts in L. cbn [env_of e_acts length] in L.
@@ -321,8 +331,9 @@ Proof.
   assert (Ea : acts = rev_append (e_acts e) []) by (unfold acts; rewrite Ho; reflexivity).
   destruct (crash_point c bd d _ bd' _ j L Hnd) as (bdj & Lj & _ & Hs & Hndc).
   exists bdj. unfold dj. rewrite Ea. split; [exact Lj|]. intros out Hout.
-  destruct (Hs out Hout) as (cc & Hd). exists cc.
-  unfold hstep_run. rewrite Emode, Ho. unfold HL; cbn [hs_mode]. auto.
+  destruct (Hs out Hout) as (cc & Hd). exists cc. split; [|split; [|apply HGI]].
+  - unfold hstep_run. rewrite Emode, Ho. unfold HL; cbn [hs_mode]. auto.
+  - unfold hstep_run. rewrite Emode, Ho. reflexivity.
 Qed.
 
 (* which files can have a write in flight: on a disk satisfying the structural
